@@ -68,15 +68,15 @@ CHECKS = {
 # what the build added to the plan (DESIGN 0.7), appended to the level text
 ADD = {
  "C02": " Length sweeps of info / psk / psk_id: dense 0..140 (300), sparse to 700 (1200), and the lengths at which the hashed string reaches a multiple of 1024..8192.",
- "C03": " Special values: scalars 1, 2, n-1, valid points with leading-zero / zero abscissa, X25519 peer keys constructed so that the DH output has a chosen shape (words XORing to zero, zero halves, one non-zero byte), all-zero / all-0xff RNG draws; calls that differ in one argument back to back in one process.",
- "C04": " Long runs inside the executor: 2^20+ seals refused in a row by an exhausted sender, 2^20+ identical exports, 64 MiB (thorough: 4.2 GiB, past 2^32 bytes) sealed by one context; SealError path with a lazily mapped 2^36+ byte input; Apalache inductive proof of the 64-bit counter.",
- "C05": " In every batch the rejected deliveries are made back to back on one state and the accepted delivery after them on the same state (closest relatives last); large-message variant; long runs: 2^20+2^16 consecutive rejections (thorough 2^24), then the genuine message, then 70 000 (2^20) messages in a row.",
+ "C03": " Special values: scalars 1, 2, n-1, valid points with leading-zero / zero abscissa, X25519 peer keys constructed so that the DH output has a chosen shape (words XORing to zero, zero halves, one non-zero byte), all-zero / all-0xff RNG draws; calls that differ in one argument back to back in one process; every authenticated encapsulation right before calls that use its sender private key.",
+ "C04": " Long runs inside the executor: 2^20+ seals refused in a row by an exhausted sender, 2^20+ identical exports, 64 MiB (thorough: 4.2 GiB, past 2^32 bytes) sealed by one context; SealError path with a lazily mapped 2^36+ byte input; Apalache inductive proof of the 64-bit counter; the counter-boundary transitions also on an executor built without debug assertions and overflow checks.",
+ "C05": " In every batch the rejected deliveries are made back to back on one state and the accepted delivery after them on the same state (closest relatives last); large-message variant; long runs: 2^20+2^16 consecutive rejections (thorough 2^24), then the genuine message, then 70 000 (2^20) messages in a row; boundary transitions also on an executor built without debug assertions.",
  "C07": " Last / second-to-last byte perturbed at every length 0..600 (1100) and at hashed-string boundaries; a trace in which sender and receiver differ in a pair of equal-length strings colliding under FNV-1/1a, CRC-32, Adler-32, djb2, sdbm, byte sum, XOR (seeded birthday search) or in long values differing in one middle bit.",
  "C11": " Exports asked again after refused / rejected calls on the same state (reverse order); exporter-context length 0..520 (1100) x {one block, several blocks} and around every power of two up to 2^16 in exact mode; long runs of identical exports.",
  "C12": " `==` on public and private keys: self, clone, another key, single-bit neighbours.",
  "C13": " Dense sweeps: every exporter-context length 0..700 (1100) and around 2^10..2^16, every info / psk / psk_id length 0..600 (1100) through both setups.",
  "C16": " The (panicking) seal / open of export-only contexts and drops of contexts while a caller's panic unwinds are part of the trace.",
- "C18": " Order independence: 16 session scripts (suites sharing two of three components, one sender identity per KEM) forward in the session process and backward in a fresh one; cross-suite concurrency stress (16 threads x 2500 repetitions, 3 x 16 x 10 000 setup-only repetitions) and cold starts (concurrent calls as the first calls of 4..24 fresh processes, every script on two threads); Send + Sync probe under all, default and no-alloc feature sets.",
+ "C18": " Order independence: 16 session scripts (suites sharing two of three components, one sender identity per KEM) forward in the session process and backward in a fresh one; cross-suite concurrency stress (16 threads x 2500 repetitions, 3 x 16 x 10 000 setup-only repetitions) and cold starts (concurrent calls as the first calls of 4..24 fresh processes, every script on two threads); 65535 / 65534 contexts created and dropped between sessions; Send + Sync probe under all, default and no-alloc feature sets.",
 }
 for _k, _v in ADD.items():
     CHECKS[_k]["text"] += _v
